@@ -509,6 +509,37 @@ example : Plain { remove := some ["0", "3-4"], sceneCuts := some [("1-2", true)]
     have := congrArg String.toList hall
     simp [String.toLower, String.toList_map] at this
 
+/-- **min_pq / max_pq, the named fields**: a given value is stored in entry 29 (`source_min_pq`) resp. 30
+(`source_max_pq`) of the DM payload, whatever L6 says (the L6-derived defaults apply only to a value that is not
+given and currently 0) -/
+theorem source_levels_set (d : DmData) (a b : Nat) (h : 31 ≤ d.main.length) :
+    (d.changeSourceLevels (some a) (some b)).main[29]? = some (a : Int) ∧
+    (d.changeSourceLevels (some a) (some b)).main[30]? = some (b : Int) := by
+  unfold DmData.changeSourceLevels
+  simp only []
+  split <;> simp [List.getElem?_set, h] <;> omega
+
+/-- … and a value that is not given stays as it is unless it is 0 and an L6 block is present, in which case it
+becomes the L6-derived default (`sourceMetaFromL6`, tied to the source below) -/
+theorem source_levels_default (d : DmData) (l6 : Block) (h : 31 ≤ d.main.length) (h6 : d.getBlock 6 = some l6) :
+    (d.changeSourceLevels none none).main[29]? =
+      some (if d.main.getD 29 0 == 0 then ((sourceMetaFromL6 l6).1 : Int) else d.main.getD 29 0) ∧
+    (d.changeSourceLevels none none).main[30]? =
+      some (if d.main.getD 30 0 == 0 then ((sourceMetaFromL6 l6).2 : Int) else d.main.getD 30 0) := by
+  obtain ⟨x29, hx29⟩ : ∃ x, d.main[29]? = some x := ⟨d.main[29], List.getElem?_eq_getElem (by omega)⟩
+  obtain ⟨x30, hx30⟩ : ∃ x, d.main[30]? = some x := ⟨d.main[30], List.getElem?_eq_getElem (by omega)⟩
+  unfold DmData.changeSourceLevels
+  have hg : ({ d with main := d.main } : DmData).getBlock 6 = some l6 := h6
+  simp only [hg, Option.isNone_none, Bool.true_and, List.getD_eq_getElem?_getD, hx29, hx30, Option.getD_some]
+  have hlt29 : 29 < d.main.length := by omega
+  have hlt30 : 30 < d.main.length := by omega
+  have e29 : d.main[29] = x29 := by
+    have := List.getElem?_eq_getElem hlt29; rw [this] at hx29; exact Option.some.inj hx29
+  have e30 : d.main[30] = x30 := by
+    have := List.getElem?_eq_getElem hlt30; rw [this] at hx30; exact Option.some.inj hx30
+  by_cases h0 : x29 = 0 <;> by_cases h1 : x30 = 0 <;>
+    simp [h0, h1, hx29, hx30, e29, e30, List.getElem?_set, hlt29, hlt30]
+
 /-- **source tie** (Gen/SourceRules.lean is regenerated from /repo on every run): `source_meta_from_l6` of level6.rs —
 the thresholds and the table that turn an L6 block into default source min/max PQ — as it stands in the source
 now is the model's `sourceMetaFromL6`, for every block -/
